@@ -72,7 +72,8 @@ def options_for(cid, o, texts):
 def custom_cfg():
     """A parameter file with other cut-offs (written into the working directory of every history)."""
     txt = open(os.path.join(core.REPO, "propka", "propka.cfg")).read()
-    return txt + "\ndesolv_cutoff 16.0\nburied_cutoff 12.0\ncoulomb_cutoff2 8.0\nsidechain_interaction 0.80\n"
+    # (... and another threshold of the coupling analysis: with it the Asp 25 pair of content c is not coupled)
+    return txt + "\ndesolv_cutoff 16.0\nburied_cutoff 12.0\ncoulomb_cutoff2 8.0\nsidechain_interaction 0.80\nmin_interaction_energy 50.0\n"
 
 
 def execute(spec, hashseed):
